@@ -3,11 +3,12 @@
    *IDN? and disconnects on any number of connections; d over every directory content. *)
 From Coq Require Import List Arith ZArith Bool NArith Lia.
 Import ListNotations.
-Require Import FV.Gen.C20 FV.C20.Model FV.C20.ConcModel FV.C20.Lemmas FV.C20.LemmasRot FV.C20.LemmasConc FV.C20.LemmasProg.
+Require Import FV.Gen.C20 FV.C20.Model FV.C20.ConcModel FV.C20.Lemmas FV.C20.LemmasRot FV.C20.LemmasConc FV.C20.LemmasProg FV.C20.LemmasEmit.
 
 (* obligations on the facts regenerated from /repo (Gen/C20.v) *)
 Theorem C20_source_facts :
-  log_levels_table_shape = true /\ check_level_shape = true /\ handle_shape = true /\ handle_compares_ge = true /\
+  log_levels_table_shape = true /\ check_level_shape = true /\ handle_shape = true /\ handle_iterates_snapshot = true /\
+  handle_compares_ge = true /\
   set_conn_level_shape = true /\ module_sets_own_name = true /\ set_all_iterates_all_modules = true /\
   handle_logging_shape = true /\ reset_sets_all_off = true /\ remove_calls_reset = true /\ ident_calls_reset = true /\
   send_log_msg_shape = true /\ rollover_guard_max_days = true /\ rollover_lists_own_logs = true /\
@@ -125,20 +126,62 @@ Theorem C20_close_and_enable_commute : forall mods pre others sched X Y m d lv,
   chosen (c_table st) m Y = Some lv /\ forall m', chosen (c_table st) m' X = None.
 Proof. intros; apply close_and_enable; assumption. Qed.
 
-(* the hypothesis "all threads have finished" is satisfiable: connection threads (any histories) together with any threads
-   using the lock in a balanced way (module threads never touch it) can always be scheduled to completion -- the lock cannot
-   block for ever *)
-Theorem C20_complete_schedule_exists : forall mods (hist : list (list op)) (others : list (list aop)) t0,
+(* the hypothesis "all threads have finished" is satisfiable: connection threads (any histories), module threads (any
+   records) and any further threads using the lock in a balanced way can always be scheduled to completion -- the lock cannot
+   block for ever, every snapshot is delivered completely *)
+Theorem C20_complete_schedule_exists :
+  forall mods (hist : list (list op)) (recss : list (list (name * Z * name))) (others : list (list aop)) t0,
   Forall (fun p => balanced p = true) others ->
-  exists sched, all_done (crun (init (map (conn_prog mods) hist ++ others) t0) sched) = true.
-Proof. intros; apply conn_threads_complete; assumption. Qed.
+  exists sched,
+    all_done (crun (init (map (conn_prog mods) hist ++ map emit_prog recss ++ others) t0) sched) = true.
+Proof. intros; apply all_threads_complete; assumption. Qed.
 
-(* a consistent reader step (one iteration of the loop in handle while other threads run) sends a message only to a
-   connection that is subscribed at that moment with a level at or below the record's level, under the right name *)
-Theorem C20_concurrent_delivery_sound : forall t m lv py c lev nm,
-  reader_ok t (ANext m lv py c lev (Some nm)) = true ->
-  chosen t m c = Some lev /\ (lev <= lv)%Z /\ nm = record_name lv py.
-Proof. intros; apply reader_sound; assumption. Qed.
+(* Emissions (handle as repaired by 641822e: lookup, one-step snapshot of the module's dict, deliveries from the snapshot;
+   every delivery is a step of its own, so writers run between the deliveries).  For ALL programs and schedules, once all
+   threads have finished:
+   (1) what thread i handed to send_log is exactly the concatenation of the messages of its emissions, in order -- nothing is
+       lost (an emission never stops half way), nothing else is sent;
+   (2) an emission e looked up its module at step em_start e and took its snapshot at step em_pos e of the executed
+       sequence lin; its messages are what the sequential handle computes from the table at the snapshot;
+   (3) seen from ANY moment l0 at or before the lookup: if no step between that moment and the snapshot writes the entry
+       (module, c) -- in particular when nobody writes it during the emission -- connection c receives the record exactly once
+       iff at that moment its level was at or below the record's level, and nothing otherwise.  Writes after the snapshot
+       do not matter; writes of OTHER entries never matter. *)
+Theorem C20_emission_complete_for_stable_subscribers : forall progs t0 sched i,
+  wf t0 ->
+  let st := crun (init progs t0) sched in
+  all_done st = true ->
+  msgs_by i st = flat_map em_msgs (emissions_by i st) /\
+  forall e, In e (emissions_by i st) ->
+    (em_start e <= em_pos e /\
+     nth_error (lin st) (em_start e) = Some (i, AGet (em_mod e)) /\
+     nth_error (lin st) (em_pos e) = Some (i, ASnap (em_lv e) (em_py e)) /\
+     em_msgs e = if has_mod (em_mod e) (table_after t0 (firstn (em_start e) (lin st)))
+                 then handle (table_after t0 (firstn (em_pos e) (lin st))) (em_mod e) (em_lv e) (em_py e) else []) /\
+    forall l0 seg c,
+      firstn (em_pos e) (lin st) = l0 ++ seg -> length l0 <= em_start e ->
+      (forall o, In o (tops (map snd seg)) -> touches (em_mod e) c o = false) ->
+      deliv_to c (em_msgs e) =
+      expected (chosen (table_after t0 l0) (em_mod e) c) (em_mod e) (em_lv e) (em_py e) c.
+Proof.
+  intros progs t0 sched i W st AD. split; [apply emissions_complete; exact AD|].
+  intros e Ie. destruct (in_emissions_by _ _ _ Ie) as [Ic Et].
+  destruct (emission_facts progs t0 sched e Ic) as (A & B & C & D & G1 & G2). fold st in B, C, D, G1, G2.
+  split.
+  - rewrite Et in G1, G2. repeat split; auto. unfold em_msgs. rewrite D, C. reflexivity.
+  - intros l0 seg c SPL LE ST. apply (emission_stable progs t0 sched e l0 seg c W Ic SPL LE ST).
+Qed.
+
+(* soundness, also while threads are still running: every message thread i handed to send_log belongs to one of its
+   emissions and goes to a connection that was subscribed to the record's module at the moment of that snapshot with a level
+   at or below the record's level, under the record's level name *)
+Theorem C20_concurrent_delivery_sound : forall progs t0 sched i c m nm,
+  wf t0 ->
+  let st := crun (init progs t0) sched in
+  In (c, m, nm) (msgs_by i st) ->
+  exists e, In e (emissions_by i st) /\ em_found e = true /\ m = em_mod e /\ nm = record_name (em_lv e) (em_py e) /\
+            exists x, chosen (em_table e) m c = Some x /\ (x <= em_lv e)%Z.
+Proof. intros; apply emission_sound; assumption. Qed.
 
 (* Rotation.  d ranges over every directory: any set of dated log files of the handler (earlier, same day, dated later), foreign
    files, sub-directories, links; "earlier" = own log file (regular file named <root>-*.log) whose name is below the name of the
@@ -215,7 +258,15 @@ Definition demo_progs : list (list aop) :=
   [conn_prog [mA] [ODisconnect 0]; conn_prog [mA] [OLogging 1 (Some mA) (LStr s_info)]].
 Example C20_demo_concurrent :
   let st := crun (init demo_progs (run [mA] [OLogging 0 (Some mA) (LStr s_debug)])) [1; 1; 0; 1; 0; 1] in
-  all_done st = true /\ c_ok st = true /\ c_table st = [(mA, [(1, 20%Z)])].
+  all_done st = true /\ c_table st = [(mA, [(1, 20%Z)])].
+Proof. vm_compute. auto. Qed.
+
+(* connection 0 (debug) and 1 (info) are subscribed to mA; a module thread emits (mA, info) while connection 0 closes right
+   after the snapshot: both get the record (connection 0 was still subscribed at the snapshot), the table ends without 0 *)
+Example C20_demo_emission :
+  let t0 := run [mA] [OLogging 0 (Some mA) (LStr s_debug); OLogging 1 (Some mA) (LStr s_info)] in
+  let st := crun (init [conn_prog [mA] [ODisconnect 0]; emit_prog [(mA, 20%Z, s_info)]] t0) [1; 1; 0; 0; 1; 1] in
+  all_done st = true /\ msgs_by 1 st = [(0, mA, s_info); (1, mA, s_info)] /\ c_table st = [(mA, [(1, 20%Z)])].
 Proof. vm_compute. auto. Qed.
 
 (* Why `set_conn_level_shape` is an obligation: a copy-on-write set_conn_level (copy the module's dict, change the copy,
@@ -264,6 +315,7 @@ Print Assumptions C20_concurrent_routing.
 Print Assumptions C20_connection_thread_writes_own_entries.
 Print Assumptions C20_close_and_enable_commute.
 Print Assumptions C20_complete_schedule_exists.
+Print Assumptions C20_emission_complete_for_stable_subscribers.
 Print Assumptions C20_concurrent_delivery_sound.
 Print Assumptions C20_copy_on_write_loses_update.
 Print Assumptions C20_rollover_frame.
